@@ -168,7 +168,34 @@ func TestMC_C15live(t *testing.T) {
 
 // ---- C17 live -------------------------------------------------------------------------------------
 
-func tcpPort() int { return 40000 + (os.Getpid()%5000)*2 }
+// tcpPort asks the kernel for a currently free port on the given address (probe socket bound to
+// port 0, closed again): fixed per-process ports collided with lingering sockets of earlier runs.
+func freeTCPPort(sa unix.Sockaddr, v6 bool) int {
+	dom := unix.AF_INET
+	if v6 {
+		dom = unix.AF_INET6
+	}
+	fd, err := unix.Socket(dom, unix.SOCK_STREAM|unix.SOCK_CLOEXEC, 0)
+	if err != nil {
+		return 40000 + os.Getpid()%20000
+	}
+	defer unix.Close(fd)
+	_ = unix.SetsockoptInt(fd, unix.SOL_SOCKET, unix.SO_REUSEADDR, 1)
+	if err := unix.Bind(fd, sa); err != nil {
+		return 40000 + os.Getpid()%20000
+	}
+	got, err := unix.Getsockname(fd)
+	if err != nil {
+		return 40000 + os.Getpid()%20000
+	}
+	switch a := got.(type) {
+	case *unix.SockaddrInet4:
+		return a.Port
+	case *unix.SockaddrInet6:
+		return a.Port
+	}
+	return 40000 + os.Getpid()%20000
+}
 
 func saToAddr(sa unix.Sockaddr) string {
 	switch a := sa.(type) {
@@ -207,22 +234,26 @@ func addrWorld(kind string) *world {
 	var wantLocal string
 	switch kind {
 	case "tcp4":
-		w.addr = fmt.Sprintf("tcp://127.0.0.1:%d", tcpPort())
-		dst = &unix.SockaddrInet4{Port: tcpPort(), Addr: [4]byte{127, 0, 0, 1}}
-		wantLocal = fmt.Sprintf("127.0.0.1:%d", tcpPort())
+		a := &unix.SockaddrInet4{Addr: [4]byte{127, 0, 0, 1}}
+		a.Port = freeTCPPort(a, false)
+		dst = a
+		w.addr = fmt.Sprintf("tcp://127.0.0.1:%d", a.Port)
+		wantLocal = fmt.Sprintf("127.0.0.1:%d", a.Port)
 	case "tcp6":
-		w.addr = fmt.Sprintf("tcp://[::1]:%d", tcpPort())
-		a := &unix.SockaddrInet6{Port: tcpPort()}
+		a := &unix.SockaddrInet6{}
 		a.Addr[15] = 1
+		a.Port = freeTCPPort(a, true)
 		dst, v6 = a, true
-		wantLocal = fmt.Sprintf("[::1]:%d", tcpPort())
+		w.addr = fmt.Sprintf("tcp://[::1]:%d", a.Port)
+		wantLocal = fmt.Sprintf("[::1]:%d", a.Port)
 	case "tcp6-linklocal":
 		ip, name, idx := linkLocal()
-		w.addr = fmt.Sprintf("tcp://[%s%%%s]:%d", ip, name, tcpPort())
-		a := &unix.SockaddrInet6{Port: tcpPort(), ZoneId: uint32(idx)}
+		a := &unix.SockaddrInet6{ZoneId: uint32(idx)}
 		copy(a.Addr[:], ip.To16())
+		a.Port = freeTCPPort(a, true)
 		dst, v6 = a, true
-		wantLocal = fmt.Sprintf("[%s%%%s]:%d", ip, name, tcpPort())
+		w.addr = fmt.Sprintf("tcp://[%s%%%s]:%d", ip, name, a.Port)
+		wantLocal = fmt.Sprintf("[%s%%%s]:%d", ip, name, a.Port)
 	case "unix":
 		wantLocal = sockPath()
 	}
